@@ -309,8 +309,35 @@ def main():
         "not_applicable": [],
         "notes": "All checks: ./check <ID> --tier quick|thorough. Exit 0 held / 1 VIOLATION (observed on the real code) / 2 infrastructure or model failure (no verdict).",
     }
+    # domain of the recorded / replayed executions as widened after the rounds of seeded changes (DESIGN 0.6)
+    WIDENED = {
+        "C02": " Shapes up to 200 rows / 17 columns; vectors and matrix rows that cancel exactly; a prepared matrix applied twice.",
+        "C03": " An inverse transform as the first transform of a fresh process; life cycles of several live NTT120 modules up to N = 2048 (8192).",
+        "C04": " Worst-case products at every length 0..130 and around the powers of two; short products on half-word-boundary operands.",
+        "C05": " Carry chains over 65..136 dropped limbs through the plain, big and range entry points; volumes up to 65536 x 18 and 16384 x 70; "
+               "the primitive on lengths 3..24.",
+        "C06": " Every dimension up to 2^18; the transforms under a 4 kHz stream of signals to the computing thread.",
+        "C07": " Prepared matrices of 16 MiB at a misaligned address under both dispatches.",
+        "C08": " One-limb operands with stride 0; volumes of 2^22 coefficients and more with every limb compared with the call on that limb "
+               "alone; limb strides of 2^29..2^32 coefficients in a sparse mapping; objects of more than 4 GiB (thorough).",
+        "C09": " Kernels up to N = 2^21; exponents p, p+N, p+2N back to back; in-place wrapper calls with unequal sizes, compaction and clearing.",
+        "C10": " The same buffer passed as both operands; half-word-boundary operands.",
+        "C12": " The built library is scanned for non-temporal stores without a fence (advisory).",
+        "C13": " In-buffer layouts under an explicit legality rule (compaction, compaction and clearing, vectors sharing single limbs, add / sub "
+               "over either operand, normalisation over its own input with another stride).",
+        "C14": " Every declared bound / overhead, divisors 2^j up to |j| = 1000, first uses of the caches in a fresh process in several orders, "
+               "dimensions up to 2^18 through the simple forms.",
+        "C15": " Operands at particular places relative to each other (adjacent; exactly 2^31+64, 2^32, 2^35 bytes apart) in a sparse mapping; "
+               "every table-level call also under round-down / round-up (control state left as found); every other library call entered with "
+               "all sticky exception flags raised.",
+        "C17": " Row counts up to 65 (129), rows that are exactly zero, convolution operands up to 300 (1000) groups, pointwise vectors of 16384 / "
+               "65536 numbers with one alignment class per operand, subnormal values in either operand.",
+    }
     for pid in ALL:
         c = CLAIMED.get(pid)
+        if c and pid in WIDENED and not c["text"].endswith(WIDENED[pid]):
+            c = dict(c, text=c["text"] + WIDENED[pid])
+            CLAIMED[pid] = c
         if not c:
             man["not_applicable"].append({"property_id": pid, "reason": NOT_YET})
             continue
